@@ -71,6 +71,7 @@ RfcOf(op) == CASE op \in {"Up", "Down", "Open", "Close", "RTR", "RTA", "RCA", "R
                [] op = "TO" -> {"TO+", "TO-"}
                [] op \in {"RCR-nak", "RCR-rej", "RCR-wrong", "RCR-mix"} -> {"RCR-"}
                [] op = "RCR-empty" -> {"RCR+"}
+               [] op = "RCR-dns0" -> {"RCR+", "RCR-"}   \* acceptable or not is the automaton's policy
                [] op = "RCJ" -> {"RCN"}
                [] op = "Unknown" -> {"RUC"}
                [] op \in {"CodeRej-crit", "ProtoRej-lcp"} -> {"RXJ-"}
